@@ -120,7 +120,10 @@ func runProperty(spec PropSpec, tier string, seed, workers int, solver string) *
 		}
 		fn := ld.pkg.Func("vpH_" + hs.Name)
 		if fn == nil {
-			res.LoadErr = "harness function vpH_" + hs.Name + " not found"
+			res.LoadErr = "harness function vpH_" + hs.Name + " not available"
+			if len(ld.dropped) > 0 {
+				res.LoadErr += ": harness file no longer type-checks against the tree: " + strings.Join(ld.dropped, "; ")
+			}
 			run.Inconclusive = append(run.Inconclusive, res.LoadErr)
 			continue
 		}
